@@ -1,0 +1,30 @@
+//go:build verif
+
+package staticsources
+
+import (
+	"github.com/bluenviron/mediamtx/internal/defs"
+	"github.com/bluenviron/mediamtx/internal/logger"
+)
+
+// VerifStaticSource is the interface of a static source instance injected by the
+// verification harness.
+type VerifStaticSource interface {
+	logger.Writer
+	Run(defs.StaticSourceRunParams) error
+	APISourceDescribe() *defs.APIPathSource
+}
+
+// VerifNewInstance, when set, is consulted by Handler.Initialize; a non-nil result
+// replaces the instance that would be selected from the source URL.
+var VerifNewInstance func(h *Handler) VerifStaticSource
+
+func verifNewInstance(h *Handler) bool {
+	if VerifNewInstance != nil {
+		if i := VerifNewInstance(h); i != nil {
+			h.instance = i
+			return true
+		}
+	}
+	return false
+}
